@@ -26,7 +26,7 @@ from diffprivlib.accountant import BudgetAccountant
 from diffprivlib.mechanisms import Exponential
 from diffprivlib.utils import warn_unused_args, PrivacyLeakWarning, check_random_state
 from diffprivlib.validation import clip_to_bounds, check_bounds
-from diffprivlib.tools.utils import _wrap_axis
+from diffprivlib.tools.utils import _wrap_axis, _check_cells
 
 
 def quantile(array, quant, epsilon=1.0, bounds=None, axis=None, keepdims=False, random_state=None, accountant=None,
@@ -106,6 +106,11 @@ def quantile(array, quant, epsilon=1.0, bounds=None, axis=None, keepdims=False, 
         raise ValueError("Quantiles must be in the unit interval [0, 1].")
 
     if len(quant) > 1:
+        # Check the whole query up front: it is charged as one spend per quantile and per output cell
+        dummy = np.zeros_like(array).sum(axis=axis, keepdims=keepdims) if axis is not None or keepdims else 0
+        n_cells = dummy.size if isinstance(dummy, np.ndarray) else 1
+        _check_cells(accountant, epsilon, epsilon / len(quant) / n_cells, len(quant) * n_cells)
+
         return np.array([quantile(array, q_i, epsilon=epsilon / len(quant), bounds=bounds, axis=axis, keepdims=keepdims,
                                   accountant=accountant, random_state=random_state) for q_i in quant])
 
